@@ -289,8 +289,10 @@ class Parser:
     def unary(self, nostruct):
         if self.at("&"):
             self.eat()
-            if self.at("mut"): self.eat()
-            return self.unary(nostruct)                       # references are transparent
+            if self.at("mut"):
+                self.eat()
+                return ("addrmut", self.unary(nostruct))      # `&mut place`: an alias when bound by `let`, transparent elsewhere
+            return self.unary(nostruct)                       # shared references are transparent
         if self.at("*"):
             self.eat()
             return self.unary(nostruct)
@@ -444,6 +446,17 @@ class Parser:
         if k == "ident":
             segs = self.path()
             if self.at("!"):
+                if segs[-1] == "matches" and self.peek(1)[1] == "(":
+                    self.eat("!"); self.eat("(")
+                    scrut = self.expr()
+                    self.eat(",")
+                    pat = self.pattern()
+                    guard = None
+                    if self.at("if"):
+                        self.eat("if"); guard = self.expr()
+                    if self.at(","): self.eat(",")
+                    self.eat(")")
+                    return ("matches", scrut, pat, guard)
                 if segs[-1] in ("unreachable", "panic", "unimplemented", "todo", "debug_assert", "debug_assert_eq") and self.peek(1)[1] == "(":
                     self.eat("!")
                     depth = 0
@@ -491,11 +504,14 @@ def parse_body(body_txt):
 #                      ("unit",) ("bidx", bool)  (a bool converted into an index)  ("fn", name) ("closure", ast, env)
 #                      ("obj", kind, payload)    opaque objects with primitive methods (ring buffer, median window, sub-filter)
 
-EFFECT_METHODS = ("source", "filter", "sink", "next", "pop_front", "pop_back", "push_back", "push", "take", "peek")
+PURE_METHODS = ("clone", "len", "is_some", "is_none", "abs", "is_zero", "as_ref", "iter", "rev", "borrow", "to_owned", "into", "partial_cmp", "unwrap",
+                "front", "back", "map_or", "map", "cached", "config", "config_ref")
 def effectful(node):
-    """does this expression call a method that changes state?"""
+    """may this expression change state?  Every method call that is not known to be pure counts, and so does every call of a
+    method of the receiver itself.  (A plain array read does not: under a symbolic left operand it is evaluated anyway and
+    contributes the hypothesis that the read succeeds, as the models do.)"""
     if isinstance(node, tuple):
-        if node and node[0] == "mcall" and node[2] in EFFECT_METHODS: return True
+        if node and node[0] == "mcall" and (node[2] not in PURE_METHODS or node[1] == ("path", ["self"])): return True
         return any(effectful(x) for x in node)
     if isinstance(node, list): return any(effectful(x) for x in node)
     return False
@@ -619,6 +635,8 @@ class Sym:
         self.taken = []         # the assumptions actually consumed
         self.reads = {}         # (buffer name, index text) -> node variable: array reads already assumed
         self.curbuf = None      # name of the current node buffer (usize::MAX is printed as `poison` of it)
+        self.global_env = Env()   # const generics and the like: visible inside inlined helper methods too
+        self.find_helper = None   # callback(name) -> (AST, [parameter names]) of a helper method in the same file, or None
         self.while_handler = None # callback(sym, env, while-AST): unrolls once and/or summarises the loop by the model's loop function
         self.loop_summary = None  # callback(sym, env, for-AST) summarising a range loop by a hypothesis about the model's loop function
 
@@ -662,6 +680,7 @@ class Sym:
 
     # ---- lvalues: paths of field accesses rooted at a variable
     def lpath(self, e):
+        if e[0] == "addrmut": return self.lpath(e[1])
         if e[0] == "path" and len(e[1]) == 1: return e[1][0], []
         if e[0] == "field":
             r, p = self.lpath(e[1])
@@ -780,6 +799,16 @@ class Sym:
                     root, path = self.lpath(st[2])
                     env.vars[st[1][1]] = ("ref", root, path)
                     continue
+                if st[1][0] == "pid" and st[2][0] == "addrmut":            # let x = &mut place;  x aliases the place
+                    try:
+                        root, path = self.lpath(st[2][1])
+                    except Unsupported:
+                        root = None
+                    if root is not None:
+                        cur = env.get(root)
+                        if cur[0] == "ref": root, path = cur[1], cur[2] + path
+                        env.vars[st[1][1]] = ("ref", root, path)
+                        continue
                 v = self.ev(st[2], env)
                 b = self.pmatch(st[1], v)
                 if b is None: raise Unsupported("refutable let pattern does not match")
@@ -871,10 +900,11 @@ class Sym:
             if e[1] == "!" and v[0] == "B": return B(self.bnot(v[1]))
             if e[1] == "-" and v[0] == "T": return T(("neg", v[1]))
             raise Unsupported("unary %s on %s" % (e[1], v[0]))
-        if k == "bin" and e[1] in ("&&", "||") and effectful(e[3]):
+        if k == "bin" and e[1] in ("&&", "||"):
             a = self.ev(e[2], env)
             if a[0] != "B": raise Unsupported("operand of %s is not a boolean" % e[1])
             if a[1] not in (("btrue",), ("bfalse",)):
+                if not effectful(e[3]): return self.binop(e[1], a, self.ev(e[3], env))     # pure right operand: a plain andb / orb
                 a = B(("btrue",) if self.decide("%s = true" % coq_B(a[1]), "%s = false" % coq_B(a[1])) else ("bfalse",))
             if (e[1] == "&&") == (a[1] == ("bfalse",)): return a          # short circuit: the right operand is NOT evaluated
             return self.ev(e[3], env)
@@ -900,6 +930,10 @@ class Sym:
                 self.match_place = None
             if v[0] == "cmp":          # Option<Ordering> of a partial comparison: a four-way symbolic split
                 return self.match_cmp(v, e[2], env)
+            if v[0] == "tuple" and any(x[0] == "cmpsplit" for x in v[1]):
+                cs = next(x for x in v[1] if x[0] == "cmpsplit")
+                if any(x[0] == "cmpsplit" and (x[1], x[2]) != (cs[1], cs[2]) for x in v[1]): raise Unsupported("two different comparisons in one scrutinee")
+                v = ("cmpsplit", cs[1], cs[2]) + tuple(("tuple", [x[3 + k_] if x[0] == "cmpsplit" else x for x in v[1]]) for k_ in range(4))
             if v[0] == "cmpsplit":     # a value that already depends on an earlier comparison: match in each of its branches
                 snap = env.snapshot()
                 outs = []
@@ -911,6 +945,10 @@ class Sym:
         if k == "return":
             raise Return(self.ev(e[1], env) if e[1] is not None else ("unit",))
         if k == "while":
+            c = e[1]
+            if (c[0] == "mcall" and c[2] == "is_none" and c[1][0] == "mcall" and c[1][2] == "push_back" and len(c[1][3]) == 1 and not e[2][1] and e[2][2] is None):
+                self.fill(c[1], env)          # push the same value until something is evicted
+                return ("unit",)
             if self.while_handler is None: raise Unsupported("while loop without a loop summary")
             return self.while_handler(self, env, e)
         if k == "loop": return self.loop(e, env)
@@ -932,6 +970,23 @@ class Sym:
                     return r.value
                 finally:
                     self.cur_cls = saved
+            if f[0] == "path" and len(f[1]) == 2 and f[1][0] == "Self" and "::".join(f[1]) not in self.fns and self.find_helper is not None:
+                h = self.find_helper(f[1][1])
+                if h is not None: self.fns["::".join(f[1])] = h
+            if f[0] == "path" and "::".join(f[1]) in self.fns and f[1][0] == "Self":
+                fdef = self.fns["::".join(f[1])]
+                args = [self.ev(a, env) for a in e[2]]
+                if len(args) != len(fdef[1]): raise Unsupported("arity of the call of %s" % "::".join(f[1]))
+                inner = Env(self.global_env)
+                for pn, a in zip(fdef[1], args): inner.vars[pn] = a
+                saved = getattr(self, "cur_cls", None)
+                self.cur_cls = fdef[2] if len(fdef) > 2 else saved
+                try:
+                    return self.block(fdef[0], inner)
+                except Return as r:
+                    return r.value
+                finally:
+                    self.cur_cls = saved
             if f[0] == "path" and len(f[1]) >= 2 and f[1][-2] in ENUM_TYPES: return ("variant", f[1][-1], [self.ev(a, env) for a in e[2]])
             if f[0] == "path" and f[1] == ["Self", "with_config"] and len(e[2]) == 1: return ("struct", {"config": self.ev(e[2][0], env)})
             if f[0] == "path" and f[1][-1] == "Some" and len(e[2]) == 1: return ("opt", self.ev(e[2][0], env))
@@ -941,6 +996,15 @@ class Sym:
             if f[0] == "path" and f[1][-1] in ("from", "into") and len(e[2]) == 1: return self.convert(self.ev(e[2][0], env))
             raise Unsupported("call of %s" % (f[1] if f[0] == "path" else f[0]))
         if k == "mcall": return self.mcall(e, env)
+        if k == "addrmut": return self.ev(e[1], env)
+        if k == "matches":
+            v = self.ev(e[1], env)
+            if v[0] == "optraw": v = self.split_opt(v)
+            b = self.pmatch(e[2], v)
+            if b is None: return B(("bfalse",))
+            if e[3] is None: return B(("btrue",))
+            inner = Env(env); inner.vars.update(b)
+            return self.ev(e[3], inner)
         if k == "diverge": raise Unsupported("execution reaches %s!()" % e[1])
         raise Unsupported("expression kind %s" % k)
 
@@ -997,6 +1061,17 @@ class Sym:
             return self.loop_summary(self, env, e)
         it = self.ev(it_e, env)
         if it[0] == "obj" and self.loop_summary is not None: return self.loop_summary(self, env, e)
+        if it[0] == "L2" and pat[0] == "ptuple" and len(pat[1]) == 2 and all(q[0] == "pid" for q in pat[1]):
+            targets = assigned_names(blk, set())
+            if len(targets) != 1: raise Unsupported("for loop over pairs assigning %s" % sorted(targets))
+            acc = next(iter(targets)); init = env.get(acc)
+            if init[0] != "T": raise Unsupported("accumulator is not a sample")
+            env.set_existing(acc, T(("var", acc)))
+            inner = Env(env); inner.vars[pat[1][0][1]] = T(("raw", "(fst sc)")); inner.vars[pat[1][1][1]] = T(("raw", "(snd sc)"))
+            self.block(blk, inner)
+            new = env.get(acc)
+            env.set_existing(acc, T(("raw", "(fold_left (fun %s sc => %s) %s %s)" % (acc, coq_T(new[1]), it[1], coq_T(init[1])))))
+            return ("unit",)
         if it[0] != "L" or pat[0] != "pid": raise Unsupported("for loop over a value of kind %s" % it[0])
         el = pat[1]
         targets = assigned_names(blk, set())
@@ -1184,18 +1259,21 @@ class Sym:
         if recv[0] == "opt" and name == "take" and not args_e:
             self.store(env, recv_e, ("opt", None))
             return recv
+        if recv[0] == "struct" and "__sub" in recv[1] and (recv[1]["__sub"][1], name) not in self.subs and self.find_helper is not None and recv_e == ("path", ["self"]):
+            h = self.find_helper(name)                   # a helper method the body was split into
+            if h is not None: self.subs[(recv[1]["__sub"][1], name)] = h
         if recv[0] == "struct" and "__sub" in recv[1] and ((recv[1]["__sub"][1], name) in self.subs or name in ("filter", "sink")):
             # a call into an inner filter whose own body is translated from its source: execute that body
             sub = recv[1]["__sub"][1]
             if (sub, name) in self.subs: ast, pnames = self.subs[(sub, name)]
             elif sub in self.subs: ast, pnames = self.subs[sub]
             else: raise Unsupported("inner filter %s is not translated" % sub)
-            inner = Env()
+            inner = Env(self.global_env)
             inner.vars["self"] = recv
             args = [self.ev(a, env) for a in args_e]
             if len(args) == 1 and args[0][0] == "tuple" and len(pnames) == len(args[0][1]) and len(pnames) > 1: args = list(args[0][1])   # one tuple-pattern parameter
             if len(args) != len(pnames): raise Unsupported("arity of the inner filter call")
-            selfcall = recv_e == ("path", ["self"])
+            selfcall = recv_e == ("path", ["self"]) and name == getattr(self, "entry_fn", None)
             if selfcall:
                 self.depth += 1
                 if self.depth > 6: raise Unsupported("self recursion deeper than 6")
